@@ -126,7 +126,51 @@ def make_decoders():
         from pyatv.auth.hap_pairing import parse_credentials
         parse_credentials(data.decode("latin1"))
 
+    def keyed_archiver(data):
+        # the _tiD blob of a Companion text-input response, read the way CompanionAPI does
+        from pyatv.protocols.companion import keyed_archiver as ka
+        ka.read_archive_properties(data, ["sessionUUID"], ["documentState", "docSt", "contextBeforeInput"])
+
+    class DgramTransport:
+        def __init__(self):
+            self.sent = 0
+
+        def sendto(self, data, addr=None):
+            self.sent += 1
+
+        def close(self):
+            pass
+
+        def get_extra_info(self, name, default=None):
+            return default
+
+    def raop_control(data):
+        # the UDP control channel of an audio stream (retransmit requests from the receiver)
+        from pyatv.protocols.raop.stream_client import ControlClient
+        from pyatv.protocols.raop.protocols import StreamContext
+        from pyatv.protocols.raop.fifo import PacketFifo
+        backlog = PacketFifo(1000)
+        for i in range(0, 70000, 997):
+            backlog[i % 65536] = b"\x80\x60" + (i % 65536).to_bytes(2, "big") + bytes(8)
+        c = ControlClient(StreamContext(), backlog)
+        c.connection_made(DgramTransport())
+        c.datagram_received(data, ("10.0.0.1", 6001))
+
+    def raop_timing(data):
+        from pyatv.protocols.raop.protocols import TimingServer
+        t = TimingServer()
+        t.connection_made(DgramTransport())
+        t.datagram_received(data, ("10.0.0.1", 6002))
+
+    def unicast_dns(data):
+        from pyatv.core import mdns
+        p = mdns.UnicastDnsSdClientProtocol(["_airplay._tcp.local", "_raop._tcp.local"], "10.0.0.1", 1)
+        p.transport = DgramTransport()
+        p.datagram_received(data, ("10.0.0.1", 5353))
+        p.parser.parse()
+
     return {
+        "keyed_archiver": keyed_archiver, "raop_control": raop_control, "raop_timing": raop_timing, "unicast_dns": unicast_dns,
         "tlv": hap_tlv8.read_tlv,
         "varint": variant.read_variant,
         "dmap": lambda d: parser.parse(d, tag_definitions.lookup_tag),
@@ -155,11 +199,17 @@ def main():
         counter[0] += 1
         return local
 
+    hangs = {}
     for j in jobs:
         data = bytes.fromhex(j["data"])
         fn = decs[j["dec"]]
         counter[0] = 0
         res = {"err": None, "hang": False}
+        if hangs.get(j["dec"], 0) >= 4:
+            # this decoder already failed to finish on four inputs of this batch: the violation is
+            # established, do not spend the time limit on every further input
+            out.append({"err": "skipped-after-hangs", "hang": False, "events": 0})
+            continue
         signal.setitimer(signal.ITIMER_REAL, float(j.get("limit", 3.0)))
         try:
             sys.settrace(tracer)
@@ -170,6 +220,7 @@ def main():
                 signal.setitimer(signal.ITIMER_REAL, 0)
         except Hang:
             res["hang"] = True
+            hangs[j["dec"]] = hangs.get(j["dec"], 0) + 1
         except RecursionError:
             res["err"] = "RecursionError"
         except BaseException as ex:  # noqa
